@@ -389,6 +389,9 @@ def check(m, run):
     # only for the object itself and its cache (shared with C12)
     from .. import rules_state
     rules_state.iv4_deepcopy(m, run)
+    # the knot vectors that are compared are the ones the user gave: no setter normalises the knots of a shape created with normalize_kv=False
+    from .. import skel_drivers as _sd
+    _sd.ks2(m, run)
     # an edit of one shape through its public setters reaches its own compared storage and nobody else's: the setters store fresh
     # structures (no sharing with the caller or with another shape built from the same lists) and never drop an assignment
     from . import c09
